@@ -7,9 +7,16 @@ fn epoch_to_timestamp<V: ValT>(v: &V) -> Result<Timestamp, Error<V>> {
     let range = || Error::str(format_args!("timestamp {v} is out of range"));
     let val = match v.as_isize() {
         Some(i) => (i as i64).checked_mul(1000000).ok_or_else(range)?,
-        None => (v.try_as_f64()? * 1000000.0) as i64,
+        None => (finite(v)? * 1000000.0) as i64,
     };
     Timestamp::from_microsecond(val).map_err(Error::str)
+}
+
+/// Use a value as a finite floating-point number (`NaN as i64` would be 0, i.e. 1970).
+fn finite<V: ValT>(v: &V) -> Result<f64, Error<V>> {
+    let f = v.try_as_f64()?;
+    let fail = || Error::str(format_args!("timestamp {v} is out of range"));
+    f.is_finite().then_some(f).ok_or_else(fail)
 }
 
 /// Convert a date-time pair to a UNIX epoch timestamp.
@@ -26,7 +33,7 @@ fn timestamp_to_epoch<V: ValT>(ts: Timestamp, frac: bool) -> ValR<V> {
 
 fn array_to_datetime<V: ValT>(v: &[V]) -> Option<Result<DateTime, jiff::Error>> {
     let [year, month, day, hour, min, sec]: &[V; 6] = v.get(..6)?.try_into().ok()?;
-    let sec = sec.as_f64()?;
+    let sec = sec.as_f64().filter(|sec| sec.is_finite())?;
     let i8 = |v: &V| -> Option<i8> { v.as_isize()?.try_into().ok() };
     Some(DateTime::new(
         year.as_isize()?.try_into().ok()?,
@@ -73,7 +80,7 @@ pub fn to_iso8601<V: ValT>(v: &V) -> Result<String, Error<V>> {
     let ts = if let Some(i) = v.as_isize() {
         Timestamp::from_second(i as i64)
     } else {
-        Timestamp::from_microsecond((v.try_as_f64()? * 1e6) as i64)
+        Timestamp::from_microsecond((finite(v)? * 1e6) as i64)
     };
     Ok(ts.map_err(Error::str)?.to_string())
 }
